@@ -1,4 +1,5 @@
 import IcyVerif.Gen.Bgi
+import IcyVerif.Gen.BgiX
 /-! Executable model of the BGI core of `src/parsers/rip/bgi/mod.rs` that every drawing primitive bottoms out in:
 `put_pixel`, `get_pixel`, `bar` / `bar_rect` (clipping against the viewport, solid and patterned fill),
 `set_viewport`, `clear_viewport`, `set_palette`, `set_palette_color`, `set_color` & co, the fill-pattern lookup,
@@ -33,7 +34,8 @@ structure Bgi where
   fillStyle : Nat
   userPat : List Nat
   vp : Rect
-  palLen : Nat
+  /-- the palette, one packed colour `r*65536 + g*256 + b` per entry -/
+  pal : List Nat
   thickness : Int
   /-- the 16 bits of `line_pattern`, bit i = entry i -/
   linePat : Nat
@@ -41,6 +43,9 @@ structure Bgi where
   winW : Int
   winH : Int
   screen : Array Nat
+
+/-- `palette.len()` -/
+def Bgi.palLen (s : Bgi) : Nat := s.pal.length
 
 def lookupFrom (tab : List (Nat × Nat)) (dflt : Nat) (v : Nat) : Nat :=
   match tab.find? (fun p => p.1 = v) with
@@ -50,7 +55,7 @@ def lookupFrom (tab : List (Nat × Nat)) (dflt : Nat) (v : Nat) : Nat :=
 def Bgi.new : Bgi :=
   { color := 7, bk := 0, fillColor := 0, writeMode := 0, lineStyle := 0, fillStyle := Gen.Bgi.fillStyleSolid,
     userPat := Gen.Bgi.defaultUserPattern,
-    vp := ⟨0, 0, Gen.Bgi.screenW, Gen.Bgi.screenH⟩, palLen := Gen.Bgi.dosPaletteLen, thickness := 1,
+    vp := ⟨0, 0, Gen.Bgi.screenW, Gen.Bgi.screenH⟩, pal := Gen.BgiX.dosPalette, thickness := 1,
     linePat := Gen.Bgi.linePatterns.getD 0 0, cur := (0, 0), winW := Gen.Bgi.screenW, winH := Gen.Bgi.screenH,
     screen := Array.replicate (Gen.Bgi.screenW * Gen.Bgi.screenH) 0 }
 
@@ -254,17 +259,22 @@ def setUserFillPattern (s : Bgi) (p : List Nat) : Bgi := { s with userPat := p.m
 
 /-- `set_palette`: `EGA_PALETTE[*c as usize]` for every entry -/
 def setPalette (s : Bgi) (colors : List Int) : Option Bgi :=
-  if colors.all (fun c => decide (0 ≤ c ∧ c < (Gen.Bgi.egaPaletteLen : Int))) then some { s with palLen := colors.length } else none
+  if colors.all (fun c => decide (0 ≤ c ∧ c < (Gen.Bgi.egaPaletteLen : Int))) then
+    some { s with pal := colors.map fun c => Gen.BgiX.egaPalette.getD c.toNat 0 }
+  else none
 
 /-- `set_palette_color(index, color)`; the palette grows to `index + 1` entries (a negative index is not modelled:
 `index as u32` would ask for 2^32 entries) -/
 def setPaletteColor (s : Bgi) (index : Nat) (color : Nat) : Option Bgi :=
-  if color % 256 < Gen.Bgi.egaPaletteLen then some { s with palLen := max s.palLen (index + 1) } else none
+  if color % 256 < Gen.Bgi.egaPaletteLen then
+    -- `Palette::set_color`: `resize(index + 1, Color::default())` (black) when too short, then the entry is replaced
+    some { s with pal := (s.pal ++ List.replicate (index + 1 - s.pal.length) 0).set index (Gen.BgiX.egaPalette.getD (color % 256) 0) }
+  else none
 
 /-- the state changes of `graph_defaults` before `clear_device` (font, character size, mouse fields and
 `suspend_text` are outside this model) -/
 def graphDefaultsPre (s : Bgi) : Bgi :=
-  let s := { s with palLen := Gen.Bgi.dosPaletteLen, vp := ⟨0, 0, s.winW, s.winH⟩ }
+  let s := { s with pal := Gen.BgiX.dosPalette, vp := ⟨0, 0, s.winW, s.winH⟩ }
   let s := setBkColor (setColor s 7) 0
   let s := setLineStyle s 0
   let s := setUserFillPattern s Gen.Bgi.defaultUserPattern
